@@ -27,9 +27,9 @@ pub fn mon() -> Mon {
 fn plan(cfg: &RunCfg) -> EncPlan {
     let mut p = EncPlan::new(&ALL_FORMS);
     p.len_max = 255;
-    p.len_reps = cfg.pick(2, 200) as u32;
+    p.len_reps = cfg.pick(6, 200) as u32;
     p.max_body = 255;
-    p.random_per_form = cfg.pick(3000, 400_000);
+    p.random_per_form = cfg.pick(15_000, 400_000);
     p.param_sweep_reps = cfg.pick(1, 20) as u32;
     p.addr_sweep_reps = cfg.pick(1, 20) as u32;
     p.pair_forms = if cfg.thorough() {
@@ -77,7 +77,7 @@ fn run(cfg: &RunCfg) -> Report {
     let p = plan(cfg);
     for_each_call(cfg, "c03", &p, &mut |c, _| check(c, &mut rep));
     // the packets process_packet encodes are encoded packets too
-    let n = if cfg.is_small() { 200 } else { cfg.pick(40_000, 4_000_000) };
+    let n = if cfg.is_small() { 200 } else { cfg.pick(200_000, 4_000_000) };
     let mut rrep = Report::new();
     for_each_response(cfg, "c03-responder", n, &mut |req, resp, who, rep| check_response(req, resp, who, rep), &mut rrep);
     rep.merge(rrep);
